@@ -14,8 +14,9 @@ During a raw copy the compressor stack is a plain storer (`start_entry` with `en
        entry's `compressed_size`): the translated `raw_copy_file_rename` has the outcome and final writer state of
        the model's `rawCopy` of the whole stream (`Call.rawCopy`), and leaves the same bytes in the sink at the same
        position (`Lemmas/RawCopyChunks.rawCopyChunks_split`).  The two devices differ in the I/O call COUNTER (one
-       sink write per chunk against one), which is why this is a statement about one call and not a covered call
-       of `grun_sim` (whose conclusion is equality of devices; under a fault index the counter matters).
+       sink write per chunk against one), which is why this is not a covered call of `grun_sim` (whose conclusion
+       is equality of devices; under a fault index the counter matters) but of the fault-free script tie
+       `Tie/WriterComposeView.vrun_sim`.
 -/
 set_option linter.unusedSimpArgs false
 set_option linter.unusedVariables false
